@@ -23,14 +23,19 @@ use uuid::Uuid;
 
 use crate::lanes::{AgentCtl, AgentShared, Controls, LaneCtl, LaneRec, RawAgent, SharedLane};
 use crate::plan::{Ending, Plan, Step};
-use crate::remote::{new_ctl, reader_task, set_stalled, writer_task, Frame, FrameLog, PacedReader, ReqKind, ReqLog, SharedCtl, SharedLog, SharedReqs, WriterCmd, FAST};
+use crate::remote::{new_ctl, reader_task, set_stalled, writer_task, Frame, FrameLog, PacedReader, Req, ReqKind, ReqLog, SharedCtl, SharedLog, SharedReqs, WriterCmd, FAST};
 use crate::store::{Op as StoreOp, RecStore, State};
 
 pub const NODE: &str = "/persist";
+/// A lane the agent does not have: requests for it keep the read task busy (commands: nothing else
+/// happens; link / sync / unlink: the write task answers "lane not found").
+pub const UNKNOWN_LANE: &str = "nolane";
 
 /// One attachment of a remote.
 pub struct Session {
     pub frames: Vec<Frame>,
+    /// The requests this attachment wrote (with the virtual time of each).
+    pub reqs: Vec<Req>,
 }
 
 struct Live {
@@ -68,6 +73,11 @@ pub struct Obs {
     pub timeout_needed_stop: bool,
     pub init_error: Option<String>,
     pub stuck: Vec<String>,
+    /// Virtual time at which the incarnation began.
+    pub epoch: tokio::time::Instant,
+    /// The runtime ended by itself while the script was still running (ticket at which this was
+    /// noticed): with a finite inactivity time-out that is legitimate.
+    pub ended_during_script: Option<u64>,
 }
 
 fn nz(n: usize) -> NonZeroUsize {
@@ -79,7 +89,7 @@ const STEP_TIMEOUT: Duration = Duration::from_secs(20);
 
 fn runtime_config(plan: &Plan) -> AgentRuntimeConfig {
     AgentRuntimeConfig {
-        inactive_timeout: if plan.ending == Ending::Timeout { Duration::from_millis(400) } else { NEVER },
+        inactive_timeout: plan.timeout_ms.map_or(NEVER, Duration::from_millis),
         prune_remote_delay: NEVER,
         shutdown_timeout: Duration::from_secs(5),
         item_init_timeout: Duration::from_secs(5),
@@ -154,8 +164,9 @@ impl Runner {
         live.writer.abort();
         live.watcher.abort();
         let frames = std::mem::take(&mut live.log.lock().frames);
+        let reqs = live.reqs.lock().reqs.clone();
         let _ = r;
-        self.sessions.push(Session { frames });
+        self.sessions.push(Session { frames, reqs });
     }
 
     fn send(&mut self, r: usize, kind: ReqKind, lane: &str) {
@@ -227,6 +238,10 @@ impl Runner {
                 }
             }
             Step::Quiesce => settle().await,
+            // Virtual time: returns when the clock has moved on by this much (every timer of the
+            // runtime that expires on the way fires, in order).
+            Step::Advance(ms) => tokio::time::sleep(Duration::from_millis(*ms)).await,
+            Step::Poke(r, kind) => self.send(*r, *kind, UNKNOWN_LANE),
         }
     }
 }
@@ -238,6 +253,7 @@ pub fn run_incarnation(plan: &Plan, base: &State, rng: &mut Rng) -> Obs {
     let base2 = base.clone();
     let mut rng2 = rng.fork();
     rt.block_on(async move {
+        let epoch = tokio::time::Instant::now();
         let n_lanes = plan2.lanes.len();
         let store = RecStore::from_state(base2.clone());
         store.0.lock().fail_from = plan2.store_fails_from;
@@ -286,9 +302,11 @@ pub fn run_incarnation(plan: &Plan, base: &State, rng: &mut Rng) -> Obs {
             attachments: 0,
         };
         let mut agent_handle = Some(agent_handle);
+        let mut ended_during_script = None;
         for step in &plan2.steps {
             runner.step(step).await;
             if agent_handle.as_ref().map_or(false, |h| h.is_finished()) {
+                ended_during_script = Some(ticket());
                 break;
             }
         }
@@ -384,6 +402,8 @@ pub fn run_incarnation(plan: &Plan, base: &State, rng: &mut Rng) -> Obs {
             timeout_needed_stop,
             init_error,
             stuck: runner.stuck,
+            epoch,
+            ended_during_script,
         }
     })
 }
